@@ -157,12 +157,14 @@ def run(res, a):
                    "delivered streams are compared prefix-wise and must both progress; the top-level netlist is compared with the bond list")
     cov["input_distribution"] = hist
     cov["traces_validated_against_impl"] = len(metas)
+    cov["programs"] = len(metas)
+    cov["disagreements_checked"] = hist["values_compared"] + hist["bonds_checked"]
     cov["samples"] = [{"machine": cases[0][0]}]
     for text, meta in viol[:3]:
         res.violation("C02 " + text, meta)
     if failed and not viol:
         res.violation("C02 proof obligation no longer checks: %s" % (failed[:2],), {"obligation": [list(f) for f in failed][:3]}, nofail=True)
-    return res.finish("proof")
+    return res.finish("translation_validation")
 
 
 def check_netlist(text, spec):
